@@ -441,6 +441,12 @@ def run(case):
                 out.fail("C14.global-state-changed", "global-state",
                          "library-global state differs after parsing (%s)" % ctx, narrow)
                 snap0 = _snapshot()
+            changed = env.reset_globals()
+            if changed:
+                out.fail("C14.global-state-changed", "global-state",
+                         "module/class level state of the library changed while parsing: %s (%s)" % (changed[:4], ctx),
+                         narrow)
+                snap0 = _snapshot()
         out.evals = max(1, nev)
     finally:
         env.restore_registry()
